@@ -263,7 +263,7 @@ def check_s2(rep, idx):
                     return reads(x_[1]) | (reads(x_[2]) & reads(x_[3]))
                 if x_ and x_[0] == "sub" and member_of_this(x_[1]) in FIVE and len(x_[2]) == 1:
                     try:
-                        if all(pe.ev(subst(x_[2][0], arith), {"i0": a_, var: c_}) == a_ + c_ for a_, c_ in ((3, 2), (5, 7))):
+                        if all(pe.ev(subst(x_[2][0], {k_: v_ for k_, v_ in arith.items() if k_ != var}), {"i0": a_, var: c_}) == a_ + c_ for a_, c_ in ((3, 2), (5, 7))):
                             out.add(member_of_this(x_[1]))
                     except pe.PEError:
                         pass
